@@ -191,5 +191,14 @@ func (i *DeleteOrUpdateInvTask) destroySuccessful(taskContext *taskrunner.TaskCo
 	if len(taskContext.InventoryManager().TimeoutReconciles()) > 0 {
 		return false
 	}
+	// Objects which were not deleted and still belong to the inventory must
+	// stay tracked: skipped deletes (unless abandoned) and invalid objects.
+	skippedDeletes := taskContext.InventoryManager().SkippedDeletes()
+	if len(skippedDeletes.Diff(taskContext.AbandonedObjects())) > 0 {
+		return false
+	}
+	if len(i.PrevInventory.Intersection(taskContext.InvalidObjects())) > 0 {
+		return false
+	}
 	return true
 }
